@@ -345,6 +345,81 @@ std::vector<CTransactionRef> WalletSim::MempoolTxs() const
     return v;
 }
 
+WalletSim::Mined WalletSim::Mine(const uint256& parent, const std::vector<CTransactionRef>& candidates, const CScript& coinbase_spk, uint32_t extra_nonce, const RefUtxo* base)
+{
+    RefUtxo utxo;
+    if (base) utxo = *base;
+    else { RefReplay pr = sim.ledger.Replay(parent); assert(pr.ok); utxo = std::move(pr.utxo); }
+    const int height = sim.ledger.At(parent).height + 1;
+    auto [txs, fees] = WsSelectValid(std::move(utxo), height, candidates);
+    BlockSpec spec;
+    spec.prev = parent;
+    spec.txs = txs;
+    spec.fees = fees;
+    spec.extra_nonce = extra_nonce;
+    if (!coinbase_spk.empty()) spec.coinbase_spk = coinbase_spk;
+    Mined m;
+    m.block = sim.Build(spec);
+    m.txs = std::move(txs);
+    m.delivery = Deliver(m.block);
+    return m;
+}
+
+RefUtxo WsUtxoWithMempool(const WsLedger& L)
+{
+    RefUtxo utxo = L.chain_utxo;
+    std::vector<CTransactionRef> pending = L.mempool_txs;
+    bool progress = true;
+    while (!pending.empty() && progress) { // apply in dependency order
+        progress = false;
+        for (size_t i = 0; i < pending.size();) {
+            const auto& tx = pending[i];
+            bool have = true;
+            for (const auto& in : tx->vin) if (!utxo.count(in.prevout)) { have = false; break; }
+            if (!have) { ++i; continue; }
+            for (const auto& in : tx->vin) utxo.erase(in.prevout);
+            for (uint32_t o = 0; o < tx->vout.size(); ++o) utxo[COutPoint(tx->GetHash(), o)] = RefCoin{tx->vout[o].nValue, tx->vout[o].scriptPubKey, -1, false};
+            pending.erase(pending.begin() + i);
+            progress = true;
+        }
+    }
+    return utxo;
+}
+
+std::pair<std::vector<CTransactionRef>, CAmount> WsSelectValid(RefUtxo utxo, int height, const std::vector<CTransactionRef>& candidates)
+{
+    std::vector<CTransactionRef> out;
+    CAmount fees = 0;
+    std::set<Txid> taken;
+    bool progress = true;
+    while (progress) {
+        progress = false;
+        for (const auto& tx : candidates) {
+            if (taken.count(tx->GetHash())) continue;
+            // height-based nLockTime (the wallet's anti-fee-sniping sets it to its tip height): final only in a higher block
+            bool ok = tx->nLockTime == 0 || int64_t(tx->nLockTime) < int64_t(height);
+            CAmount in = 0, outv = 0;
+            std::set<COutPoint> seen;
+            for (const auto& i : tx->vin) {
+                if (!ok) break;
+                auto it = utxo.find(i.prevout);
+                if (it == utxo.end() || !seen.insert(i.prevout).second || (it->second.coinbase && height - it->second.height < 100)) { ok = false; break; }
+                in += it->second.value;
+            }
+            if (!ok) continue;
+            for (const auto& o : tx->vout) outv += o.nValue;
+            if (in < outv) continue;
+            for (const auto& i : tx->vin) utxo.erase(i.prevout);
+            for (uint32_t o = 0; o < tx->vout.size(); ++o) utxo[COutPoint(tx->GetHash(), o)] = RefCoin{tx->vout[o].nValue, tx->vout[o].scriptPubKey, height, false};
+            fees += in - outv;
+            out.push_back(tx);
+            taken.insert(tx->GetHash());
+            progress = true;
+        }
+    }
+    return {out, fees};
+}
+
 // ---------------------------------------------------------------- independent ledger
 
 WsLedger WalletSim::Ledger() const
@@ -353,12 +428,14 @@ WsLedger WalletSim::Ledger() const
     const uint256 tip = sim.TipHash();
     RefReplay r = sim.ledger.Replay(tip);
     if (!r.ok) { L.ok = false; L.why = "model rejects the active chain: " + r.why + " at " + r.bad_block.ToString(); return L; }
+    L.tip = tip;
     L.tip_height = sim.ledger.At(tip).height;
     for (const uint256& h : sim.ledger.Path(tip)) for (const auto& tx : sim.ledger.At(h).vtx) L.in_chain.insert(tx->GetHash());
 
     std::map<Txid, CTransactionRef> mp;
     std::set<COutPoint> mp_spent;
-    for (const auto& tx : MempoolTxs()) {
+    L.mempool_txs = MempoolTxs();
+    for (const auto& tx : L.mempool_txs) {
         mp[tx->GetHash()] = tx;
         L.mempool.insert(tx->GetHash());
         for (const auto& in : tx->vin) mp_spent.insert(in.prevout);
@@ -409,6 +486,7 @@ WsLedger WalletSim::Ledger() const
             add(op, std::move(wc));
         }
     }
+    L.chain_utxo = std::move(r.utxo);
     return L;
 }
 
@@ -494,8 +572,13 @@ WalletSim::Floating WalletSim::FloatingTxs() const
 
 int WalletSim::AbandonFloating()
 {
+    return AbandonFloating(FloatingTxs());
+}
+
+int WalletSim::AbandonFloating(const Floating& f)
+{
     int n = 0;
-    for (const Txid& id : FloatingTxs().alive) {
+    for (const Txid& id : f.alive) {
         LOCK(w->cs_wallet);
         if (!w->GetWalletTx(id)) continue;
         if (!w->TransactionCanBeAbandoned(id)) continue;
